@@ -186,6 +186,12 @@ func enforce(c *Case) {
 }
 
 func main() {
+	// As the target of cmd/sandbox: leave a marker as the very first action.
+	if m := os.Getenv("VERIF_MARKER"); m != "" {
+		if f, err := os.Create(m); err == nil {
+			f.Close()
+		}
+	}
 	if len(os.Args) < 2 {
 		fatal("usage: vchild <mode> <case.json>")
 	}
